@@ -157,6 +157,9 @@ class Model:
         v = self.vars.get(name)
         if tracking is not None:
             if isinstance(v, dict):
+                if tracking in ("True", "False") and tracking not in v:
+                    # "a variable's name and tracking value are strings. If you request ... @empty.True, the value will nevertheless be found"
+                    return v.get(tracking == "True")
                 return v.get(tracking)
             if v is None:
                 return None
@@ -318,7 +321,17 @@ class Model:
             return self.nonblank_total
         if f == "count":
             if a:
-                raise Unspec("count(v)")
+                # "scoped to its contained value, the count is of the values seen. If it is a bool, the count is of True and False";
+                # stored under the function's name qualifier, keyed by the value
+                name = q[0] if q and q[0] not in QUALS else None
+                if name is None or "onmatch" in q:
+                    raise Unspec("anonymous / onmatch count(v)")
+                tv = self.val(a[0])
+                if not isinstance(tv, bool):
+                    raise Unspec("count(v) of a non-bool")
+                cur = (self.getvar(name, tv) or 0) + 1
+                self.setvar(name, cur, tv)
+                return cur
             return self.match_count + 1
         if f in ("concat", "lower", "upper", "strip", "substring"):
             vs = [self.val(x) for x in a]
@@ -687,6 +700,9 @@ class Model:
                 return True
             st.append(v)
             return True
+        if f == "count":
+            self.fnval(n)
+            return True
         if f == "put":
             name = self.val(a[0])
             if len(a) == 3:
@@ -740,6 +756,8 @@ class Model:
         k = n[0]
         if k in ("assign", "print"):
             return True
+        if k == "fn" and n[1] == "count" and n[2]:
+            return True
         if k == "fn" and n[1] in SIDE_FUNCS:
             return True
         return False
@@ -770,7 +788,7 @@ class Model:
             return False
         if self.is_effectful(c):
             v = self.side_effect(c)
-            if c[0] == "fn" and c[1] in ("push", "push_distinct", "counter", "sum", "subtotal", "stop", "skip", "advance", "fail", "fail_all", "fail_and_stop", "pop"):
+            if c[0] == "fn" and c[1] in ("push", "push_distinct", "counter", "sum", "subtotal", "stop", "skip", "advance", "fail", "fail_all", "fail_and_stop", "pop", "count"):
                 return True if self.AND else v
             return v
         return self.vote(c)
